@@ -25,6 +25,10 @@ func ParseMailmap(contents string) map[string]object.Signature {
 			continue
 		}
 		ltp := strings.LastIndex(line, "<")
+		if ltp < 0 {
+			// malformed: ">" without "<"
+			continue
+		}
 		fromEmail := line[ltp+1 : len(line)-1]
 		line = strings.TrimSpace(line[:ltp])
 		gtp := strings.LastIndex(line, ">")
@@ -36,6 +40,10 @@ func ParseMailmap(contents string) map[string]object.Signature {
 		if gtp > 0 {
 			line = line[:gtp]
 			ltp = strings.LastIndex(line, "<")
+			if ltp < 0 {
+				// malformed: ">" without "<"
+				continue
+			}
 			toEmail = line[ltp+1:]
 			line = strings.TrimSpace(line[:ltp])
 		}
